@@ -25,13 +25,23 @@ func init() {
 		Title: "Blocking calls always end on cancellation or close; close is clean",
 		Rule: "1-4 blocking operations (request, observe registration, observation cancel, ping, confirmable one-way write) on one real connection (UDP, DTLS shim, TCP, TLS shim; limiter 0/1) against a peer that is silent, sends garbage, acknowledges without answering, stalls the stream (bounded send buffer, never reads) or stalls the handshake; the interruption (context cancel, deadline, local Close from 1-3 goroutines, peer FIN / reset) lands wherever the tape puts it; " +
 			"non-trivial = an operation was still blocked when the interruption came; distinct = distinct event-log hash",
-		Scenarios: []Scenario{{Name: "S-LIVE/client", Weight: 1, Run: c09Run}},
-		Quick:     200000,
-		Thorough:  3000000,
-		Require:   []string{"blocked.when:local-close", "blocked.when:peer-fin", "blocked.when:peer-reset", "interrupted.whileBlocked:cancel", "close.whileReaderBlockedOnFullQueue", "socket.deadOnArrival"},
+		Scenarios: []Scenario{{Name: "S-LIVE/client", Weight: 5, Run: c09Run},
+			// Stop / Serve of the servers while peers stall handshakes, connect and stay silent, or are mid-exchange:
+			// the server workloads of C10, reporting the rules that concern Stop
+			{Name: "S-LIVE/server-stop-tcp", Weight: 1, Run: func(e *Env) {
+				e.RuleRename, e.RulePrefix = [2]string{"C10.R5", "C09.R5"}, "C09."
+				c10Twin(e, "tcp")
+			}},
+			{Name: "S-LIVE/server-stop-dtls", Weight: 1, Run: func(e *Env) {
+				e.RuleRename, e.RulePrefix = [2]string{"C10.R5", "C09.R5"}, "C09."
+				c10Twin(e, "dtls")
+			}}},
+		Quick:    200000,
+		Thorough: 3000000,
+		Require:  []string{"blocked.when:local-close", "blocked.when:peer-fin", "blocked.when:peer-reset", "interrupted.whileBlocked:cancel", "close.whileReaderBlockedOnFullQueue", "socket.deadOnArrival"},
 		Assume: []string{
 			"bounded delay D = one tick interval (4 s) + 1 s of simulated time after the interrupting event (for a deadline: after the deadline), with one housekeeping tick in between and nothing further delivered",
-			"connections are built like Dial does (the library owns and closes the socket); server-side Stop / Serve and discovery are exercised by C10's scenarios",
+			"connections are built like Dial does (the library owns and closes the socket); Stop / Serve of the tcp and dtls servers are checked by hosting C10's server workloads (rule C09.R5: Serve returns after Stop, nothing stays blocked)",
 		},
 	})
 }
